@@ -18,6 +18,7 @@
 package types
 
 import (
+	"encoding/base64"
 	"encoding/json"
 	"fmt"
 	"math"
@@ -290,7 +291,17 @@ func (c *ColumnImage) UnmarshalJSON(data []byte) error {
 			// values such as "John" or "1234" into garbage
 			actualValue = str
 		case JDBCTypeBinary, JDBCTypeVarBinary, JDBCTypeLongVarBinary, JDBCTypeBit:
-			actualValue = value
+			// the row scanner hands these columns over as raw bytes (see GetScanSlice), which
+			// encoding/json writes as base64 text: hand the bytes back, not their base64 form
+			if str, ok := value.(string); ok {
+				raw, err := base64.StdEncoding.DecodeString(str)
+				if err != nil {
+					return fmt.Errorf("column %s: base64 text is expected for type %d: %w", columnName, columnType, err)
+				}
+				actualValue = raw
+			} else {
+				actualValue = value
+			}
 		}
 	}
 	*c = ColumnImage{
